@@ -10,7 +10,7 @@
  *             Inv:  nt >= 0, actions >= 0, npa == actions + (nt > 0)            (ghost: actions)
  *                   mon == BUSY  =>  npa > 0          (a zero count after readiness is never left undetected)
  *                   reports == (rank(mon) >= 2)       (ghost: reports = callback invocations of the epoch)
- *  M_ARB    rely/guarantee, environment acts before AND after every atomic operation of the function and
+ *  M_ARB    rely/guarantee, environment acts before AND after (VERIF_RG_POST_STEP) every atomic operation of the function and
  *           inside the callback.  Rely: rank(mon) never decreases; TERMINATING->TERMINATED is done only by
  *           the winner of the BUSY->TERMINATING CAS; ready() has one caller per epoch; the two counters
  *           change ARBITRARILY (any int32).  Obligations: callback only by the CAS winner, only after the
@@ -50,6 +50,10 @@
  * longer runs of failures reach no new post-loop state; lock-freedom of the loop is not claimed.
  */
 #include "verif.h"
+#ifndef VERIF_RG_POST_STEP
+#define VERIF_RG_POST_STEP
+#endif                          /* the wrappers call verif_env_step again AFTER verif_own_step: interference between my
+                                  atomic operation and my next plain access */
 #include "verif_rg.h"
 #include "parsec/parsec_config.h"
 #include "parsec/parsec_internal.h"
@@ -57,7 +61,7 @@
 #include "parsec/mca/termdet/local/termdet_local_module.c"
 
 #ifndef NENV
-#define NENV  16
+#define NENV  24
 #endif
 #ifndef RETRY
 #define RETRY 2          /* failed CAS attempts of a retry loop the environment may cause per call */
@@ -87,6 +91,7 @@ static parsec_taskpool_t tp;
 static int g_mode, g_fn;
 /* ghost */
 static int g_env_k, g_env_short, g_retry_left;
+static int g_post;            /* the next verif_env_step call is the wrapper's post-step of my last atomic operation */
 static int g_cb_mine, g_cb_env, g_won, g_published, g_ready_done;
 static int g_bad_edge, g_plain_write, g_cb_not_winner, g_cb_mon_wrong, g_cas_without_zero, g_pub_before_cb, g_inv_broken, g_zero_broken, g_must_report;
 static void   *g_mon_sh;
@@ -150,6 +155,15 @@ void verif_env_step(int op, volatile void *loc)
 {
     if (is_refcount(loc)) return;
     check_shadows();
+    if (g_post) {
+        /* post-step (VERIF_RG_POST_STEP): others act between my atomic operation and my next plain read.  Everything
+         * "at my step" (linearisation values, must-report, invariant check) was recorded in verif_own_step before this
+         * point and is not touched here; the retry budget and g_npa_seen belong to the pre-step of the NEXT operation. */
+        g_post = 0;
+        env_act();
+        sync_shadows();
+        return;
+    }
     if (op == V_OP_CAS && loc == (volatile void *)&tp.tdm.monitor)
         g_npa_seen = tp.nb_pending_actions;              /* what a plain read since the last hook saw */
     if (op == V_OP_CAS && (loc == (volatile void *)&tp.nb_tasks || loc == (volatile void *)&tp.nb_pending_actions)) {
@@ -205,8 +219,7 @@ void verif_own_step(int op, volatile void *loc, int success)
     if (g_mode == M_PROTO && g_npa_sh <= 0 &&
         (tp.nb_tasks > g_nt_sh || tp.nb_pending_actions > g_npa_sh)) g_zero_broken = 1;
     sync_shadows();
-    env_act();                                            /* interference between my atomic and my next plain read */
-    sync_shadows();
+    g_post = 1;                                           /* the wrapper now calls verif_env_step again: post-step */
 }
 
 /* ---- stubs (trusted base) ---- */
@@ -223,7 +236,7 @@ static void release_stub(parsec_object_t *o) { (void)o; g_freed++; }
 static void setup(int mode, int fn)
 {
     g_mode = mode; g_fn = fn;
-    g_env_k = g_env_short = 0; g_retry_left = RETRY;
+    g_env_k = g_env_short = 0; g_retry_left = RETRY; g_post = 0;
     g_cb_mine = g_cb_env = g_won = g_published = g_ready_done = 0;
     g_bad_edge = g_plain_write = g_cb_not_winner = g_cb_mon_wrong = g_cas_without_zero = g_pub_before_cb = g_inv_broken = g_zero_broken = g_must_report = 0;
     g_have_lin = g_nt_lin = g_npa_lin_n = 0; g_pend = 0; g_hold = 0; g_mytasks = 0; g_freed = 0;
